@@ -53,6 +53,18 @@ checks = [
  ("C27", "exhaustive exploration of class-group x wrapper x decoy placements, real code, records compared after removing the qualification prefix and mapping rows",
   "Six class groups (single class, inheritance, mixin, private section, initialize arity, class-method chain) are analysed at top level and wrapped in one / two nested modules with outside references qualified, each alone and next to a same-named decoy class (top level before/after the wrapped group, or inside another module); the group's and its uses' records must be those of the top-level reference.",
   TRUST),
+ ("C07", "exhaustive enumeration of (receiver class x configured method x argument tuple) calls, each analysed by the real code and judged by a three-valued reference acceptance model read from the same JSON",
+  "Every configured instance method name (plus undeclared names) on 9 literal receivers x every argument tuple of length 0..2 (quick) / 0..3 (thorough) over 7 literal kinds and 3 union-typed variables, one call per program: whenever the reference model says 'certainly fails' (undeclared for the class and its ancestors, count outside every overload, an argument whose every class is rejected by every overload) a diagnostic must be on the call's row.",
+  TRUST + " The reference model answers only on its certain domain (keyword parameters, block methods, mixed default unions, typed-array elements, Integer-for-Float, Unify-style parameters are 'unknown'). Generated configurations are not yet covered by this check (shipped core configuration only)."),
+ ("C08", "same enumeration as C07, restricted to calls the reference acceptance model certainly accepts",
+  "For every call of the C07 space that certainly fits a declaration (declared or inherited, count accepted, every class of every argument - including union-typed arguments - accepted) there must be no diagnostic on the call's row.",
+  TRUST + " Same reference-model domain as C07."),
+ ("C09", "exhaustive enumeration against a reference interpreter: (a) certainly-fitting configured calls with resolvable declared return types, (b) all straight-line programs up to a statement bound",
+  "(a) `dbtp recv.m(args)` must print the declared return type with Self, Unify, OptionalUnify, typed arrays, unions and ?T resolved against the receiver; (b) every sequence of <=3 (quick) / <=4 (thorough) statements over literals, array/hash literals (incl. a repeated key), reassignment, copy, indexing, hash lookup, push, <<, OptionalUnify calls and call chains is probed after every statement against the reference interpreter (set equality of types).",
+  TRUST + " Conditional returns, Argument/SelfArgument/BlockResultArray style returns and whether an index expression may be nil are outside the reference's domain."),
+ ("C10", "exhaustive enumeration of conditional skeletons against a reference variant-filter model",
+  "Variable types {Integer|NilClass, Integer|String, Integer|String|NilClass, String|Array} x conditions (atoms and && pairs over nil?/!nil?/is_a?/!is_a? on one or two variables) x if/unless x none/else/elsif-else x filler statements (incl. an unrelated inner if and a block) x optional nested conditional, with dbtp probes in every branch and after the conditional; every probe must print the reference set (class level).",
+  TRUST + " Probes whose reference set is empty (unreachable branch) are skipped."),
 ]
 m = {
  "version": 1,
